@@ -252,6 +252,15 @@ def run(ctx: Ctx) -> None:
     # ---------------------------------------------------------------- R4.8
     check_exception_discipline(ctx, "R4.8", pm)
 
+    # ---------------------------------------------------------------- R4.9
+    # "stored ... in the scope of its state": the scope a block state is bound to follows the nesting of the blocks
+    # (a namespace block's scope is found or created under its parent state's scope; an extern block's scope is its
+    # parent state's scope).  These are C12's R12.4 / R12.5, evaluated here under this property's id.
+    from . import c12
+    from ..report import SubCtx
+    t49 = "the scope bound to a block state is derived from the parent state's scope (namespace walk over scope trees; extern blocks alias the parent's scope)"
+    c12.run(SubCtx(ctx, {"R12.4": ("R4.9", t49), "R12.5": ("R4.9", t49)}))  # type: ignore[arg-type]
+
     # ---------------------------------------------------------------- R4.v (shared with C05)
     # nesting of the delivered stream under pruning, and completeness of the call-site inventory
     # (a visitor method bound once would bypass every rule above)
